@@ -137,21 +137,24 @@ func Value(v reflect.Value) interface{} {
 	panic("verifcodec: kind not handled: " + v.Kind().String())
 }
 
-// Prefixes returns the byte offsets of the length prefixes in the encoding of v (which starts at offset `at`) and the encoding's end
-func Prefixes(v reflect.Value, at int, out *[]int) int {
+// Pfx is one length prefix in an encoding: its byte offset and the maximum length of the field it belongs to (0 = none)
+type Pfx struct{ Off, Max int }
+
+// Prefixes returns the length prefixes in the encoding of v (which starts at offset `at`; max = the field's maximum) and the encoding's end
+func Prefixes(v reflect.Value, at int, max int, out *[]Pfx) int {
 	switch v.Kind() {
 	case reflect.Uint8, reflect.Uint16, reflect.Uint32, reflect.Uint64, reflect.Int8, reflect.Int16, reflect.Int32, reflect.Int64:
 		return at + int(v.Type().Size())
 	case reflect.String:
-		*out = append(*out, at)
+		*out = append(*out, Pfx{at, max})
 		return at + 4 + v.Len()
 	case reflect.Array, reflect.Slice:
 		if v.Kind() == reflect.Slice {
-			*out = append(*out, at)
+			*out = append(*out, Pfx{at, max})
 			at += 4
 		}
 		for i := 0; i < v.Len(); i++ {
-			at = Prefixes(v.Index(i), at, out)
+			at = Prefixes(v.Index(i), at, 0, out)
 		}
 		return at
 	case reflect.Struct:
@@ -165,11 +168,11 @@ func Prefixes(v reflect.Value, at int, out *[]int) int {
 			if tagOmit(f) && fv.Len() == 0 {
 				continue
 			}
-			at = Prefixes(fv, at, out)
+			at = Prefixes(fv, at, tagMax(f), out)
 		}
 		return at
 	case reflect.Ptr:
-		return Prefixes(v.Elem(), at, out)
+		return Prefixes(v.Elem(), at, 0, out)
 	}
 	panic("verifcodec: kind not handled: " + v.Kind().String())
 }
@@ -426,9 +429,21 @@ func Run(pkg string, codecs []Codec) error {
 			obj := c.New()
 			Fill(rng, reflect.ValueOf(obj).Elem(), 1, 0)
 			base := encoder.Serialize(obj)
-			offs := []int{}
-			Prefixes(reflect.ValueOf(obj), 0, &offs)
-			for _, o := range offs {
+			pfxs := []Pfx{}
+			Prefixes(reflect.ValueOf(obj), 0, 0, &pfxs)
+			for _, px := range pfxs {
+				o := px.Off
+				if px.Max >= 1000 {
+					// a length just beyond a large maximum WITH that many bytes behind it: not a truncation (the bytes are there), the
+					// maximum is what is exceeded - whatever the element size
+					for _, l := range []uint32{uint32(px.Max) + 1} {
+						b := append(append([]byte{}, base[:o]...), byte(l), byte(l>>8), byte(l>>16), byte(l>>24))
+						b = append(b, make([]byte, int(l)+rng.Intn(3))...)
+						if err := decBoth(b); err != nil {
+							return err
+						}
+					}
+				}
 				left := uint32(len(base) - o - 4)
 				for _, l := range append([]uint32{left - 1, left, left + 1}, lengths...) {
 					b := append([]byte{}, base...)
